@@ -8,10 +8,11 @@ import sys
 def main():
     module = sys.argv[1]
     key = os.environ.get("CBISIM_SCANDIR_KEY", "")
-    if key != "":
-        from cbisim import seams
+    from cbisim import seams
 
+    if key != "":
         seams.install_scandir(key)
+    seams.install_pool(key or "0")
     sys.argv = [module] + sys.argv[2:]
     import warnings
 
